@@ -16,7 +16,13 @@ sender, receiver, retry timer; server: srv = (srv + subscribe) - unsubscribe per
     Sends held, breaks at random points) recorded as traces; TLC (DiscoveryTrace.tla) searches for an
     interleaving of the client's hidden steps that explains every event (conformance) and evaluates the
     property's predicate in the model state at the end of each history (verdict);
- 5. thorough: end to end through the production path (dependency stream hook -> Subscribe) against a real gRPC
+ 5. silent stream failures (the connection dies without FIN/RST; only the transport's keepalive ever turns that into an
+    error): in the model SilentFail / KeepaliveDetect with the constant HasKeepalive (FALSE must violate NoDeadlock,
+    KeepsRetrying and Converges); in the scripted and random drivers as "silent"/"detect" steps; on the code, through the
+    constructor that holds the dial options (config.New -> newDynamicSource -> initDiscoveryClient): quick = the keepalive
+    parameters of the ClientConn it builds are what HasKeepalive = TRUE assumes; thorough = real gRPC server behind a TCP
+    forwarder that black-holes the established connection, new streams must carry the dependency set within 90 s;
+ 6. thorough: end to end through the production path (dependency stream hook -> Subscribe) against a real gRPC
     discovery server implemented in the harness.
 """
 import concurrent.futures as cf
@@ -31,6 +37,9 @@ LEVEL = "model_checking"
 
 SIG_DEADLOCK = "deadlock/queue-full-holding-lock"
 SIG_BATCH = "out-of-sync/sub-unsub-same-batch"
+SIG_SILENT = "no-retry/silent-connection-loss"
+SILENT_CONFIRM_S = 150     # "never" is only reported after this long (the verdict must not depend on machine load)
+SILENT_DEADLINE_S = 90     # generously above keepalive time + timeout (30 s + 10 s; grpc 1.23 needs up to 2*30 + 10)
 
 
 # ----------------------------------------------------------------------------- behaviours out of TLC
@@ -220,11 +229,20 @@ def compare_with_tlc(ctx, label, results, verdicts):
 # ----------------------------------------------------------------------------- the parts
 
 def part_model(ctx):
+    """the intended design.  quick: 4 operations, 1 failure, safety + liveness.  thorough: safety at the full bounds (6 operations,
+    2 failures of any kind) here, liveness at 5 operations in part_model_live (the liveness pass dominates: at the full
+    bounds it takes 10 min - MC_Discovery_fixed_fulllive.cfg, 2,872,023 states, run on demand with VERIF_C16_FULL_LIVENESS=1)."""
     cfg = "MC_Discovery_fixed.cfg" if ctx.thorough else "MC_Discovery_fixed_quick.cfg"
-    r = ctx.mc("config", "Discovery", cfg, workers=8 if ctx.thorough else 6, timeout=1500, coverage=not ctx.thorough)
+    if ctx.thorough and os.environ.get("VERIF_C16_FULL_LIVENESS") == "1":
+        cfg = "MC_Discovery_fixed_fulllive.cfg"
+    r = ctx.mc("config", "Discovery", cfg, workers=6, timeout=2400, coverage=not ctx.thorough)
     if r.coverage:
         ctx.check_vacuity(r, "Discovery", ignore=("Init", "CallUnlock"))  # CallUnlock exists in the pinned variant only
     return r
+
+
+def part_model_live(ctx):
+    return ctx.mc("config", "Discovery", "MC_Discovery_fixed_live.cfg", workers=6, timeout=1800, count=False)
 
 
 def part_model_enqfix(ctx):
@@ -244,7 +262,10 @@ def part_pinned(ctx):
         "MC_Discovery_pinned_batch.cfg": ["InSync"],
         "MC_Discovery_enqfix_batch.cfg": ["InSync"],
         "MC_Discovery_batchfix_only.cfg": ["NoDeadlock"],
-        "MC_Discovery_windows.cfg": ["NotW1", "NotW2", "NotW3", "NotW4", "NotW5"],
+        "MC_Discovery_nokeepalive.cfg": ["NoDeadlock"],
+        "MC_Discovery_nokeepalive_retry.cfg": ["TEMPORAL"],
+        "MC_Discovery_nokeepalive_converges.cfg": ["TEMPORAL"],
+        "MC_Discovery_windows.cfg": ["NotW1", "NotW2", "NotW3", "NotW4", "NotW5", "NotW6", "NotW7"],
     }
     out = {}
     for cfg, e in exp.items():
@@ -257,7 +278,9 @@ def part_pinned(ctx):
         if e == ["TEMPORAL"]:
             # this TLC prints "Temporal property X was violated", which kit.parse_tlc does not classify
             r = ctx.tlc("config", "Discovery", cfg, workers=2, timeout=300)
-            prop = {"MC_Discovery_pinned_callers.cfg": "CallerReturns", "MC_Discovery_pinned_retry.cfg": "KeepsRetrying"}[cfg]
+            prop = {"MC_Discovery_pinned_callers.cfg": "CallerReturns", "MC_Discovery_pinned_retry.cfg": "KeepsRetrying",
+                    "MC_Discovery_nokeepalive_retry.cfg": "KeepsRetrying",
+                    "MC_Discovery_nokeepalive_converges.cfg": "Converges"}[cfg]
             if "Temporal property %s was violated" % prop not in r.stdout:
                 raise kit.Inconclusive("TLC %s: expected a counterexample for %s, got %s %s" % (cfg, prop, r.violated, r.error[:300]))
             out[cfg] = [prop]
@@ -309,6 +332,38 @@ def part_e2e(ctx):
     return kit.read_ndjson(rfile)
 
 
+def part_keepalive(ctx):
+    """the ClientConn built by the production constructor, observed (quick and thorough)"""
+    rfile = os.path.join(ctx.work, "keepalive.ndjson")
+    ctx.harness(["c16-keepalive", "-out", rfile], timeout=120)
+    return kit.read_ndjson(rfile)[0]
+
+
+def part_blackhole(ctx):
+    rfile = os.path.join(ctx.work, "blackhole.ndjson")
+    ctx.harness(["c16-blackhole", "-out", rfile, "-deadline", "%ds" % SILENT_DEADLINE_S, "-confirm", "%ds" % SILENT_CONFIRM_S],
+                timeout=SILENT_CONFIRM_S + 120)
+    return kit.read_ndjson(rfile)[0]
+
+
+def judge_keepalive(ctx, ka):
+    """HasKeepalive = TRUE in the model means: the transport reports a silently dead connection within the deadline"""
+    if ka.get("err"):
+        raise kit.Inconclusive("keepalive probe: " + ka["err"])
+    if not ka["streamsUp"]:
+        raise kit.Inconclusive("keepalive probe: the production client never brought its streams up against the harness server")
+    ctx.case(key="keepalive/%s/%s" % (ka["time_s"], ka["timeout_s"]), nontrivial=True)
+    ctx.cov["keepalive"] = ka
+    within = ka["detect_within_s"]
+    if within < 0 or within > SILENT_DEADLINE_S - 10:
+        ctx.violation(SIG_SILENT,
+                      "the ClientConn built by config/dynamic.go initDiscoveryClient has %s (Time=%ss Timeout=%ss as passed to grpc.Dial): "
+                      "a connection that dies without FIN/RST never fails Recv/Send, the Run loops never retry and no stream carries "
+                      "the dependency set again (Discovery.tla with HasKeepalive = FALSE: NoDeadlock, KeepsRetrying, Converges violated)"
+                      % ("no client keepalive" if within < 0 else "a keepalive that needs %.0f s" % within, ka["time_s"], ka["timeout_s"]),
+                      {"keepalive": ka, "model": "MC_Discovery_nokeepalive*.cfg"})
+
+
 def run(ctx):
     ctx.build()
     ctx.assumptions += [
@@ -317,10 +372,15 @@ def run(ctx):
         "a broken stream makes Recv fail and Send fail (or, in the model only, swallow the message)",
         "the server applies one request as srv = (srv + subscribe) - unsubscribe; the opposite order is evaluated as well",
         "the client's retry delay (0.8-1.2 s) is below the 3 s / 10 s deadlines",
+        "a silent failure is detected by nothing but the transport keepalive (TCP retransmission timeouts, ~15 min, are beyond every deadline)",
+        "grpc-go 1.23 declares a silent connection dead within 2*Time + Timeout; the keepalive parameters are read from the ClientConn by reflection",
     ]
-    parts = {"model": part_model, "enqfix": part_model_enqfix, "pinned": part_pinned, "replay": part_replay, "random": part_random}
+    parts = {"model": part_model, "enqfix": part_model_enqfix, "pinned": part_pinned, "replay": part_replay, "random": part_random,
+             "keepalive": part_keepalive}
     if ctx.thorough:
+        parts["model_live"] = part_model_live
         parts["e2e"] = part_e2e
+        parts["blackhole"] = part_blackhole
     res = {}
     with cf.ThreadPoolExecutor(max_workers=len(parts)) as ex:
         futs = {name: ex.submit(fn, ctx) for name, fn in parts.items()}
@@ -404,11 +464,34 @@ def run(ctx):
                       {"scenario": r["name"], "scope": scope, "result": o}, estats)
         ctx.cov["e2e"] = {"scenarios": [r["name"] for r in res["e2e"]], "verdicts": estats}
 
+    # ---- silent failures on the production constructor's connection
+    judge_keepalive(ctx, res["keepalive"])
+    if "blackhole" in res:
+        bh = res["blackhole"]
+        if bh.get("err"):
+            raise kit.Inconclusive("black-hole scenario: " + bh["err"])
+        ctx.case(key="e2e/" + bh["name"], nontrivial=True)
+        ctx.cov["blackhole"] = {k: bh[k] for k in ("name", "deadline_s", "recovered", "elapsed_s", "connections", "streamsAfter", "keepalive")}
+        if not bh["recovered"]:
+            ctx.violation(SIG_SILENT,
+                          "%s: %.0f s (deadline 90 s) after the established connection went silent (no FIN/RST; new connections possible at once) "
+                          "no new stream carries the dependency set: service streams seen by the server %s, connections made %d; "
+                          "config stream: missing %s; ClientConn keepalive Time=%ss Timeout=%ss"
+                          % (bh["name"], bh["elapsed_s"], bh["streamsAfter"], bh["connections"],
+                             bh["clients"]["config"]["missing"][:8], bh["keepalive"].get("time_s"), bh["keepalive"].get("timeout_s")),
+                          {"scenario": bh})
+        elif bh["elapsed_s"] > SILENT_DEADLINE_S:
+            raise kit.Inconclusive("black-hole scenario: new streams carried the dependency set only after %.0f s (deadline %d s, "
+                                   "keepalive needs at most %.0f s): machine too loaded to decide" %
+                                   (bh["elapsed_s"], SILENT_DEADLINE_S, bh["keepalive"].get("detect_within_s", -1)))
+        else:
+            ctx.cov["traces_validated_against_impl"] += 1
+
     if ctx.cov.get("model_drift") and not ctx.violations and not ctx.known_hits:
         raise kit.Inconclusive("recorded traces are not behaviours of any variant of Discovery.tla and no execution violated the "
                                "property predicate (model drift): %s" % ctx.cov["model_drift"][0])
     ctx.cov["rule"] = ("exhaustive: every reachable state of Discovery.tla for 3 services, capacity 2, <=6 (quick: 4) caller operations, "
-                       "<=2 failures. cases = behaviours emitted by TLC (all counterexample states of the pinned variants + seeded "
+                       "<=2 (quick: 1) failures (creation refused, stream broken, stream silent); liveness at <=5 operations. cases = behaviours emitted by TLC (all counterexample states of the pinned variants + seeded "
                        "simulations of the intended design, distinct by their environment-level step sequence; non-trivial = contains a "
                        "failure, a request naming >=2 model services or a full queue) replayed on the real client, plus seeded random "
                        "histories on the real client (distinct by seed; non-trivial = more calls than the queue holds or a failure), "
